@@ -1,6 +1,8 @@
 import Cbor.Drv.Util
 import Cbor.Spec.Head
 import Cbor.Spec.Utf8
+import Cbor.Spec.Decode
+import Cbor.Drv.Tree
 /-! Executable Spec operations (the property oracle); no dependency on `Cbor.Gen` / `Cbor.Model`. -/
 namespace Drv
 open Spec
@@ -63,6 +65,16 @@ def specOp (ws : List String) : Option String :=
   | ["HEAD", h] => do
       let a ← parseHex h
       some (HeadRes.fmt (decodeHead (getA a 0) a.size))
+  | ["DECODE", lz, l, h] => do
+      let a ← parseHex h; let L ← l.toNat?
+      let r := Spec.decode (lz == "1") L (fun i => a.getD i 0) a.size
+      some (match r with
+        | .ok x n => s!"OK {fmtItem x} {n}"
+        | .nodata => "NODATA"
+        | .fail e p => s!"ERR {match e with | .notEnough => "NOTENOUGHDATA" | .malformed => "MALFORMATED" | .syntax => "SYNTAXERROR" | .mem => "MEMERROR"} {p}")
+  | ["ENCODE", t] => do
+      let x ← parseTree t
+      some (listToHex (Spec.encode x) ++ s!" depth={Spec.openDepth x}")
   | ["UTF8", h] => do
       let a ← parseHex h
       match Spec.Utf8.count (a.toList.map (·.toNat)) with
